@@ -25,6 +25,11 @@ func (k Keeper) ClaimVesting(ctx sdk.Context, msg *types.MsgClaimVesting) (*type
 	for _, vesting := range commitments.VestingTokens {
 		vestedSoFar := vesting.VestedSoFar(ctx)                         // tokens unlocked
 		newClaim := vestedSoFar.Sub(vesting.ClaimedAmount)              // tokens to mint or transfer
+		if newClaim.IsNegative() {
+			// total amount was reduced by a cancel after a claim: nothing to release until the schedule catches up
+			updatedVestingTokens = append(updatedVestingTokens, vesting)
+			continue
+		}
 		newClaims = newClaims.Add(sdk.NewCoin(vesting.Denom, newClaim)) // adding coin to mint or transfer
 		vesting.ClaimedAmount = vestedSoFar                             // updating claimed amount
 		if !vesting.ClaimedAmount.Equal(vesting.TotalAmount) {          // if ClaimedAmount == TotalAmount, it would mean all tokens has been claimed and no need to keep the vesting tokens
